@@ -286,7 +286,7 @@ theorem popProc_snapRel (c : Cfg) (s : State) (e : Info) (l : List Info) (r : Re
   cases hk : r.kind with
   | data b =>
     simp only
-    have hy := yieldItem_cases c s2 r b s.rcvdIdx lo hio hms2 hlo hr2 (by omega)
+    have hy := yieldItem_cases c s2 r b s.rcvdIdx lo hm hms2 hlo hr2 (by omega)
     have hp := yieldItem_sameProto c s2 r b
     have hw := yieldItem_wsnaps c s2 r b hio
     generalize yieldItem c s2 r b = y at hy hp hw
@@ -294,12 +294,11 @@ theorem popProc_snapRel (c : Cfg) (s : State) (e : Info) (l : List Info) (r : Re
     simp only at hy hp hw
     simp only [finish, SnapRel]
     cases hy with
-    | plain hno ho hny hms3 hsn3 => left; rw [hsn3, hsnap2]
-    | snap hI hdue hf ho hny hms3 hsn3 =>
+    | plain hf ho hny hms3 hsn3 => left; rw [hsn3, hsnap2]
+    | snap hI hf ho hny hms3 hsn3 =>
       right
       rw [hsn3, hw, hp.rcvdIdx, hr2]
       exact ⟨rfl, rfl⟩
-    | fail hI hdue hf ho hny hms3 hsn3 => left; rw [hsn3, hsnap2]
   | error => left; simp only [finish]; exact hsnap2
   | notice => left; simp only [finish]; exact hsnap2
   | ack => left; simp only [finish]; exact hsnap2
@@ -402,15 +401,15 @@ theorem allM_rcvd_le (c : Cfg) (s : State) (h : AllM c s) : s.rcvdIdx ≤ c.batc
     have := hmid.len; have := hmid.le
     omega
 
-theorem allM_snapStep (c : Cfg) (s : State) (h : AllM c s) : SnapStep c s.snap.step :=
-  ⟨h.sn.st0, fun h0 => (h.sn.st h0).1⟩
+theorem allM_snapStep (c : Cfg) (s : State) (h : AllM c s) (he : errFree c) : SnapStep c s.snap.step :=
+  ⟨h.sn.st0, fun h0 => (h.sn.st he h0).1⟩
 
 /-- `snapshot_step` as a function of `_num_yielded`. -/
-theorem allM_step_eq (c : Cfg) (s : State) (h : AllM c s) :
+theorem allM_step_eq (c : Cfg) (s : State) (h : AllM c s) (he : errFree c) :
     s.snap.step = if c.interval = 0 then 0 else c.interval * (s.numYielded / c.interval) := by
   by_cases h0 : c.interval = 0
   · simp [h0, h.sn.st0 h0]
-  · obtain ⟨⟨k, hk⟩, h2, h3⟩ := h.sn.st h0
+  · obtain ⟨⟨k, hk⟩, h2, h3⟩ := h.sn.st he h0
     simp only [h0, if_false]
     rw [hk] at h2 h3 ⊢
     congr 1
@@ -424,11 +423,11 @@ theorem allM_sound (c : Cfg) (hv : c.Valid) (hm : c.iterable = false) (he : errF
     have h2 := h.sn.al he
     by_cases h0 : c.interval = 0
     · rw [h.sn.st0 h0]; exact Nat.zero_le _
-    · have := (h.sn.st h0).2.1; omega
+    · have := (h.sn.st he h0).2.1; omega
   rw [idealAt_map c hm he _ hle]
   obtain ⟨hlw, hmain⟩ := h.sn.lw he
   have hws := h.sw
-  rw [hmain, wsAfter_boundary c hv.1 hm he _ hle (allM_snapStep c s h)] at hws
+  rw [hmain, wsAfter_boundary c hv.1 hm he _ hle (allM_snapStep c s h he)] at hws
   rcases hs : s.snap with ⟨st, lw, mn, ws⟩
   rw [hs] at hlw hmain hws
   simp only at hlw hmain hws
